@@ -142,6 +142,14 @@ func judgeFetch(which string, l *refLog, others map[string]*refLog, self string,
 			}
 		}
 		if start < 0 {
+			// a run of this log that begins at a later batch boundary: the start of the batch holding o is not in the reply
+			for i := fi + 1; i < len(l.frames); i++ {
+				p := l.frames[i].Pos
+				n := min(len(got), len(l.bytes)-p)
+				if n >= 61 && bytes.Equal(l.bytes[p:p+n], got[:n]) {
+					return &fetchVerdict{"reply_starts_after_requested_batch", fmt.Sprintf("fetch %s@%d max=%d (hw %d) returned a run that starts at byte %d of the log (batch %s at offset %d) but the batch holding offset %d starts at byte %d: the consumer skips it", self, o, maxBytes, hw, p, l.frames[i].ID, l.frames[i].Base, o, l.frames[fi].Pos)}
+				}
+			}
 			return nil // not a run of this log: C03's business
 		}
 		return &fetchVerdict{"reply_ends_before_requested_batch", fmt.Sprintf("fetch %s@%d max=%d (hw %d) returned bytes [%d,%d) of the log but the batch holding offset %d starts at byte %d: only records before the fetch offset", self, o, maxBytes, hw, start, start+len(got), o, l.frames[fi].Pos)}
@@ -160,6 +168,7 @@ type fetchCaseCfg struct {
 	Gap           bool // flushonack only: a middle segment loses its index, a fresh PartitionLog restored from offset 0 skips it
 	UploadFaults  int  // midflush only: how many segment/index uploads may fail (without effect) during the scheduled run
 	FaultProb     float64
+	MidBuffered   bool // midflush only: KAFSCALE_PRODUCE_SYNC_FLUSH=false - flushes are append-triggered (buffer of BufBatches batches), acks do not wait for them and the fetch watermark covers buffered and in-flight batches
 }
 
 // sentBatch is one batch a producer of the mid-flush mode sent, with what became of it.
@@ -229,11 +238,15 @@ func runFetchCase(t *testing.T, r *verifkit.Run, which string, rng *rand.Rand, c
 		fc.UploadFaults = 1
 		fc.FaultProb = []float64{0, 0.03, 0.1}[rng.Intn(3)] // on top of this, the failure of a flush that an append overlapped is preferred
 	}
+	if fc.Mode == "midflush" && fc.UploadFaults == 0 && rng.Intn(2) == 0 {
+		fc.MidBuffered = true
+		fc.BufBatches = 2 + rng.Intn(2)
+	}
 	sig = fmt.Sprintf("%+v", fc)
 	synctest.Test(t, func(t *testing.T) {
 		topics := map[string]int32{"t": 2, "u": 1}
-		cfg := plogCfg{Topics: topics, FlushOnAck: fc.Mode != "buffered", IndexInterval: fc.IndexInterval, CacheBytes: fc.CacheBytes, ReadAhead: fc.ReadAhead, MaxSteps: 800}
-		if fc.Mode == "buffered" {
+		cfg := plogCfg{Topics: topics, FlushOnAck: fc.Mode != "buffered" && !fc.MidBuffered, IndexInterval: fc.IndexInterval, CacheBytes: fc.CacheBytes, ReadAhead: fc.ReadAhead, MaxSteps: 800}
+		if fc.Mode == "buffered" || fc.MidBuffered {
 			cfg.BufferMaxBatch = fc.BufBatches
 		} else {
 			cfg.BufferMaxBytes = 1 << 30
@@ -271,7 +284,11 @@ func runFetchCase(t *testing.T, r *verifkit.Run, which string, rng *rand.Rand, c
 			np := 2 + rng.Intn(2)
 			for p := 0; p < np; p++ {
 				var reqs []plogReq
-				for b := 0; b < 2+rng.Intn(2); b++ {
+				nb := 2 + rng.Intn(2)
+				if fc.MidBuffered {
+					nb += 2
+				}
+				for b := 0; b < nb; b++ {
 					id := fmt.Sprintf("c%d/p%d/%d", ci, p, b)
 					n := 1 + rng.Intn(4)
 					reqs = append(reqs, plogReq{Kind: "produce", Topic: "t", Partition: int32(rng.Intn(2)), Acks: -1, Batch: mkBatch(rng, id, n, rng.Intn(30)), BatchID: id, NRecords: n})
@@ -500,6 +517,9 @@ func runFetchCase(t *testing.T, r *verifkit.Run, which string, rng *rand.Rand, c
 			}
 			if inWindow {
 				r.Count("cases_with_read_while_upload_pending", 1)
+				if fc.MidBuffered {
+					r.Count("cases_with_read_while_upload_pending_and_acks_not_waiting_for_the_flush", 1)
+				}
 			}
 			s.sc.gated = map[string]bool{}
 			sweep(s, r, rng, parts[:2], refs, fc, judge)
